@@ -123,6 +123,7 @@ def run(ctx):
     r5_tail_windows(ctx)
     r6_moving_average(ctx)
     r7_view_owner(ctx)
+    r8_pairing_after_length(ctx)
 
 
 def _table_of(expr):
@@ -199,8 +200,25 @@ def r2_completeness(ctx):
             acts = " ".join(unparse(s) for s in cur.orelse)
             tests["else"] = "remove" if "to_remove.extend" in acts else "keep" if "to_keep.extend" in acts else "?"
             cur = None
-    want = {"len(group) > n_levels": "remove", "len(group) < n_levels": "remove", "else": "keep"}
-    ctx.ob("C18.R2", RES, "Result._group_p", top, "groups larger or smaller than the number of levels are removed; only equal-sized groups are kept", tests == want, detail={"arms": tests})
+    removed, kept_else = [], tests.get("else") == "keep"
+    for t, act in tests.items():
+        if t == "else":
+            continue
+        if act != "remove":
+            kept_else = False
+        e = ast.parse(t, mode="eval").body
+        removed += [unparse(d) for d in (e.values if isinstance(e, ast.BoolOp) and isinstance(e.op, ast.Or) else [e])]
+    size_ok = {"len(group) > n_levels", "len(group) < n_levels"} <= set(removed)
+    ctx.ob("C18.R2", RES, "Result._group_p", top, "groups larger or smaller than the number of levels are removed; only the remaining groups are kept", size_ok and kept_else, detail={"arms": tests})
+
+    def distinct_levels(d):
+        e = ast.parse(d, mode="eval").body
+        return isinstance(e, ast.Compare) and len(e.ops) == 1 and isinstance(e.ops[0], (ast.Lt, ast.NotEq)) and unparse(e.comparators[0]) == "n_levels" \
+            and isinstance(e.left, ast.Call) and call_name(e.left) == "len" and isinstance(e.left.args[0], (ast.Call, ast.SetComp)) \
+            and (call_name(e.left.args[0]) == "set" or isinstance(e.left.args[0], ast.SetComp)) and "group" in unparse(e.left) \
+            and ("itemgetter(1)" in unparse(e.left) or "[1]" in unparse(e.left))
+    ctx.ob("C18.R2", RES, "Result._group_p", top, "a group of the right size is still removed when its evaluations do not cover every level (a duplicated level hides a missing one)",
+           any(distinct_levels(d) for d in removed), detail={"removed when": removed}, stmt="distinct levels in group")
     nl = assigned_value(gp, "n_levels")
     ctx.ob("C18.R2", RES, "Result._group_p", gp, "the number of levels is the number of distinct l-values present", len(nl) == 1 and unparse(nl[0]) == "len(set(map(itemgetter(1), indexes)))", stmt="n_levels")
     grp = [x for x in walk_shallow(gp) if isinstance(x, ast.For) and "grouper(indexes" in unparse(x.iter)]
@@ -305,6 +323,34 @@ def r6_moving_average(ctx):
     ctx.floor("C18.R6", "span == 1 return in moving_average", n, 1)
 
 
+def r8_pairing_after_length(ctx):
+    ctx.rule("C18.R8", "_filter_fin: when evaluations can be dropped for their length (an integer n) and a pairing is requested, the pairing filter runs "
+                       "(again) after the length filter -- otherwise a dropped evaluation leaves an incomplete pairing group in the result")
+    fn = ctx.fn(RES, "Result._filter_fin")
+    stmts = [st for st in fn.body if not isinstance(st, ast.Expr)]
+    pos = {"_global_n": [], "_group_p": []}
+    for i, st in enumerate(stmts):
+        for c in ast.walk(st):
+            if isinstance(c, ast.Call) and call_tail(c) in pos:
+                pos[call_tail(c)].append((i, st))
+    ctx.floor("C18.R8", "length filter calls in _filter_fin", len(pos["_global_n"]), 1)
+    params = [a.arg for a in fn.args.args][1:]
+    N, Lp, Pp = params[0], params[1], params[2]
+    for i, st in pos["_global_n"]:
+        later = [s2 for j, s2 in pos["_group_p"] if j > i]
+        ok = False
+        for s2 in later:
+            if isinstance(s2, ast.If):
+                conj = s2.test.values if isinstance(s2.test, ast.BoolOp) and isinstance(s2.test.op, ast.And) else [s2.test]
+                allowed = {N, f"{N} != 'min'", f"{Lp} or {Pp}", f"{Pp} or {Lp}", f"isinstance({N}, int)", f"{N} is not None"}
+                if all(unparse(c) in allowed for c in conj):
+                    ok = True
+            else:
+                ok = True
+        ctx.ob("C18.R8", RES, "Result._filter_fin", st, "the pairing filter is applied after evaluations were dropped for their length", ok,
+               detail={"later pairing calls": [unparse(s2)[:100] for s2 in later]}, stmt="pairing after length filter")
+
+
 def r7_view_owner(ctx):
     ctx.rule("C18.R7", "row numbers are applied to the table they were computed on: in View(T._data, rows) the rows come from <R>._remove(...) of the same "
                        "Result object R whose interactions table T is")
@@ -328,6 +374,8 @@ def r7_view_owner(ctx):
 
 
 CONTROLS = [
+    ("pairing only before the length filter", RES, M.delete_stmt("Result._filter_fin", M.text_has("if n and n != 'min' and (l or p): result = result._group_p(l, p)")), "C18.R8"),
+    ("group size only", RES, M.replace_expr("Result._group_p", "len(group) < n_levels or len(set(map(itemgetter(1), group))) < n_levels", "len(group) < n_levels"), "C18.R2"),
     ("rows of the unfiltered result applied to the filtered table", RES, M.replace_expr("Result.filter_best", "only_finished._remove(to_drop)", "self._remove(to_drop)"), "C18.R7"),
     ("weights applied before the span-1 shortcut", RES, M.insert_before("moving_average", lambda st: isinstance(st, ast.If) and "'exp'" in ast.unparse(st.test), "if weights and weights != 'exp': values = list(map(mul, values, weights))"), "C18.R6"),
     ("window start wraps", RES, M.replace_expr("Result._grouped_ys", "Y[-span:]", "Y[len(Y) - span:]"), "C18.R5"),
